@@ -474,10 +474,24 @@ Theorem select_is_filter_and_sort (tb : table) (desc : bool) (cs : list (cop * s
               (let qualifying := filter (goodb cs) (live (h_tree (tb_h tb))) in
                if desc then rev qualifying else qualifying)).
 Proof.
-  intros Hwf F. destruct (window_total cs F) as (w & Hw). unfold select_model. rewrite Hw.
+  intros Hwf F. destruct (window_total cs F) as (w & Hw). unfold select_model.
+  assert (NN : existsb (fun c : cop * sval => is_null (snd c)) cs = false).
+  { clear -F. induction F as [|[o v] l Dv F IH]; [reflexivity|]. cbn [existsb snd]. rewrite IH.
+    destruct v; try reflexivity. cbn [snd] in Dv. unfold D in Dv. cbn in Dv. discriminate. }
+  rewrite NN, Hw.
   f_equal. f_equal.
   change (fun kr : sval * row => forallb (sat (fst kr)) cs) with (goodb cs).
   destruct desc; [apply (scan_desc_spec cs F _ w Hwf Hw)|apply (scan_asc_spec cs F _ w Hwf Hw)].
+Qed.
+
+(* a constraint whose operand is NULL is never satisfied: the SELECT returns no row (and does not fail) *)
+Theorem select_null_operand (tb : table) (desc : bool) (cs : list (cop * sval)) o :
+  In (o, VNull) cs -> select_model tb desc cs = Some [].
+Proof.
+  intros Hin. unfold select_model.
+  assert (E : existsb (fun c : cop * sval => is_null (snd c)) cs = true).
+  { apply existsb_exists. exists (o, VNull). split; [exact Hin|reflexivity]. }
+  rewrite E. reflexivity.
 Qed.
 
 (* what "qualifying" means, spelled out: exactly the live rows whose key satisfies every
